@@ -378,6 +378,25 @@ def gen_cases(rng, tier, have):
     for q in (17, 257, 433, 641, 3457, 3889, 21169, 39367, 65537, 270337, 786433):
         C.append(mk("prim_root_of_prime", [q], "prim_root_of_prime", n=q))
         C.append(mk("prim_root_of_prime.L", [q] + sorted(factor(q - 1), reverse=True), "prim_root_of_prime", n=q))
+    # primes whose p-1 is squareful with several repeated primes (partial f-parts in the order bookkeeping of both phases)
+    sq = []
+    for e2 in range(2, 12):
+        for e3 in range(0, 7):
+            for e5 in range(0, 4):
+                for e7 in range(0, 3):
+                    for e11 in (0, 2):
+                        q = 2 ** e2 * 3 ** e3 * 5 ** e5 * 7 ** e7 * 11 ** e11 + 1
+                        if 3000 < q < 10 ** 11 and (e3 >= 2) + (e5 >= 2) + (e7 >= 2) + (e11 >= 2) >= 1 and is_prime(q):
+                            sq.append(q)
+    rng.shuffle(sq)
+    for q in sorted(sq[:(400 if th else 60)]):
+        C.append(mk("prim_root_of_prime" if q % 3 else "prim_root_of_prime.L", [q] + ([] if q % 3 else sorted(factor(q - 1))), "prim_root_of_prime", n=q))
+    # n = 2 p^m whose even candidate A gets the parity correction: A + p^m must be used, A + p may fail modulo p^2 (5, 45827)
+    for q, ms in ((5, (2, 3, 6, 14)), (45827, (2, 3)), (3, (2, 5, 9)), (7, (2, 4)), (11, (2, 3))):
+        for m_ in ms:
+            _FC[2 * q ** m_] = {2: 1, q: m_}; _FC[q ** m_] = {q: m_}
+            C.append(mk("prim_root", [2 * q ** m_], "prim_root", n=2 * q ** m_))
+            C.append(mk("prim_root.runs", [q ** m_], "prim_root", n=q ** m_))
     for i in range(60 if th else 16):
         q = rand_prime(rng, rng.range(14, 32))          # the code factors p^m by Pollard rho: ~4 s for a 43-bit p
         _FC.update({q: {q: 1}, 2 * q: {2: 1, q: 1}, q * q: {q: 2}, 2 * q ** 3: {2: 1, q: 3}})
@@ -509,6 +528,18 @@ def gen_cases(rng, tier, have):
         for a in range(b, 3001 if th else 1200):
             if b <= 3 or a % 7 == 0 or any(abs(a - b ** e) <= 1 for e in range(1, 12)):
                 C.append(mk("logp", [a, b], "logp", a=a, b=b))
+    # exact powers and their neighbours (the table of squares p^(2^j) and the greedy descent), word-sized and multi-limb bases
+    for b in [2, 3, 5, 7, 10, 2 ** 16, 65537, 2 ** 32 - 1, 2 ** 32, 2 ** 63 + 9, 2 ** 64, 2 ** 64 + 13, 3 ** 50 + 2, rng.bits(130) + 2]:
+        for e in [1, 2, 3, 4, 5, 7, 8, 9, 15, 16, 17, 31, 32, 33, 63, 64, 65, 127, 128, 129]:
+            if b.bit_length() * e > (9000 if th else 2200):
+                continue
+            for a in (b ** e - 1, b ** e, b ** e + 1, b ** e * (b - 1) + b ** e - 1):
+                if a >= 1:
+                    C.append(mk("logp", [a, b], "logp", a=a, b=b))
+    for b in [2, 3, 7, 10, 65537, 2 ** 64 + 13]:          # a < p : floor(log_p a) = 0
+        for a in sorted({1, 2, b // 2, b - 2, b - 1}):
+            if 1 <= a < b:
+                C.append(mk("logp", [a, b], "logp", a=a, b=b))
     for i in range(400 if th else 120):
         b = rng.choice([2, 3, 10, 65537, rng.range(2, 2 ** 40), rng.bits(70) + 2]); e = rng.range(1, 60 if th else max(2, 500 // b.bit_length()))
         for a in (b ** e - 1, b ** e, b ** e + 1, rng.range(b ** e, b ** (e + 1) - 1)):
@@ -619,6 +650,8 @@ def spec(c, out, small_cache):
         if k == "prim_root_of_prime":
             # input class: the first phase walks past 2 (2 lacks the full f-part for EVERY prime f | n-1)
             skips2 = all(pow(2, (n - 1) // f, n) == 1 for f in factor(n - 1))
+            if n <= 3:
+                return A == n - 1, n - 1, S_NT + k, "n=%d" % n
             return ok, "a primitive root of the prime n in (0,n)", S_NT + k, "first-phase-skips-2" if skips2 else "prime"
         if k == "probable_prim_root" and len(t) > 1 and t[1] != "0":
             return True, "probabilistic (incomplete factorisation)", S_NT + k, "prime"
@@ -673,7 +706,7 @@ def spec(c, out, small_cache):
         return (a * a + b * b - c["k"]) % c["p"] == 0, "a*a + b*b = k (mod p)", S_SQ + c["iop"].replace("sumofsquares", "sumofsquaresmodprime"), "k<0" if c["k"] < 0 else "k>=0"
     if k == "logp":
         r = int(t[0]); a, b = c["a"], c["b"]
-        return r >= 0 and b ** r <= a < b ** (r + 1), "r with p^r <= a < p^(r+1)", "logp", "a>=p"
+        return r >= 0 and b ** r <= a < b ** (r + 1), "r with p^r <= a < p^(r+1)", "logp", "a>=p" if a >= b else "a<p"
     if k in ("jacobi", "legendre", "kronecker"):
         exp = kronecker_py(c["a"], c["b"])
         if k == "legendre":
@@ -827,7 +860,7 @@ def build_impl(chk):
     return b, log, have
 
 
-def run_parallel(binary, lines, nproc=6, timeout=300):
+def run_parallel(binary, lines, nproc=6, timeout=300, restarts=12):
     """run the line-protocol binary on `lines` split round-robin over nproc processes.  A process that dies or hangs on a
     line gets the output CRASH for that line and is restarted on the rest (at most 12 restarts per chunk).
     returns (ok, outputs in order, err)"""
@@ -840,7 +873,7 @@ def run_parallel(binary, lines, nproc=6, timeout=300):
 
     def work(i):
         todo = chunks[i]; outs = []; errs = ""
-        for attempt in range(13):
+        for attempt in range(restarts + 1):
             if not todo:
                 break
             pr = subprocess.Popen([binary], stdin=subprocess.PIPE, stdout=subprocess.PIPE, stderr=subprocess.PIPE, universal_newlines=True, errors="replace")
@@ -911,6 +944,16 @@ def main(tier, replay=None):
         cases = [Case(f["case"]) for f in rp.get("failing_inputs", []) if isinstance(f.get("case"), dict) and "iop" in f["case"]]
     else:
         cases = gen_cases(rng, tier, have)
+    # calls that may not terminate get their own process and a short timeout (prim_root_of_prime(2) looped forever before fix-6)
+    if not replay:
+        probes = [mk("prim_root_of_prime", [2], "prim_root_of_prime", n=2), mk("prim_root_of_prime.L", [2], "prim_root_of_prime", n=2),
+                  mk("prim_root_of_prime", [3], "prim_root_of_prime", n=3), mk("prim_root_of_prime.L", [3, 2], "prim_root_of_prime", n=3)]
+        for pc in probes:
+            okp, po, pe = run_parallel(himpl, ["%s %s" % (pc["iop"], " ".join(str(x) for x in pc["iargs"]))], nproc=1, timeout=4, restarts=0)
+            if po and po[0] and not po[0].startswith("CRASH"):
+                cases.append(pc)
+            else:
+                chk.fail_input(S_NT + "prim_root_of_prime", "n=%d" % pc["n"], dict(pc), "a primitive root of the prime n", "no result within 4 s", "the call does not terminate")
     ilines = ["%s %s" % (c["iop"], " ".join(str(x) for x in c["iargs"])) for c in cases]
     tmo = 1500 if tier == "thorough" else 280
     okr, iout, ierr = run_parallel(himpl, ilines, timeout=tmo)
